@@ -9,7 +9,7 @@ SCHED_NOTE = ("Trusted: rtrb push/pop, Arc counts, parking_lot mutexes and threa
 CHECKS = {
  "C01": ("SCHED", "model_checking", "4 (C01)",
          "Exhaustive enumeration of all schedules (preemption bound 2 quick / 3 thorough) of multi-threaded programs over the real fastrace code under a controlled scheduler, default configuration; every execution is compared with a reference model: each defined record delivered exactly once, by the final flush at the latest, and by the first cycle that began after it was finished. Bounded-exhaustive, not a proof: programs, threads and preemptions are bounded.",
-         "stateless model checking: preemption-bounded DFS over schedules of the real code + reference-model oracle"),
+         "stateless model checking: preemption-bounded DFS over schedules of the real code + reference-model oracle (incl. a bound on the drain passes of every collector cycle); the wall-clock clause is additionally observed on the free-running collector thread (deterministic scenarios, not an enumeration)"),
  "C03": ("SCHED", "model_checking", "4 (C03)",
          "All schedules up to the preemption bound of hand-off scenarios in the cancelable configuration; oracle: per trace one report call, not before the root finishes, containing everything that happens-before the root's finish (vector clocks over the program's hand-offs).",
          "stateless model checking: preemption-bounded DFS over schedules of the real code + happens-before oracle"),
@@ -54,7 +54,7 @@ CHECKS = {
          "explicit enumeration of call sequences x cycle placements against a reference model (stateless exploration of the real code)"),
  "C16": ("SEQ", "model_checking", "4 (C16)",
          "Disabled build (fastrace without `enable`, separate workspace so that no feature unification happens): all call sequences up to length 3 (4) over 30 public operations; after every call: no closure ran, no reporter call, no new thread, every query None/empty, #[trace] functions unchanged. Enabled build: generated call sequences over non-recording spans (no-op-derived, scope-less local operations) with every closure counted, run with a reporter and in a process that never installs one, plus a probe that creates spans before set_reporter and uses them afterwards.",
-         "explicit enumeration of call sequences in both feature configurations against closure counters / reporter log / thread count"),
+         "explicit enumeration of call sequences in both feature configurations against closure counters / reporter log / thread count / allocation count inside flush()"),
  "C12": ("INPUT", "exploration", "4 (C12)",
          "Bounded-exhaustive input enumeration: contexts over boundary lattices of 128-bit x 64-bit ids x sampled (encode form + decode round trip), every string up to length 5 (6) over a 9-symbol boundary alphabet and the product of per-field menus against an independent reference parser (None exactly where the statement requires it, the right value wherever Some), Display/FromStr/serde round trips of both id types. Exhaustive over the stated alphabets, not over all 2^193 contexts.",
          "exhaustive enumeration of a bounded input space against an independent reference decoder"),
